@@ -2,6 +2,7 @@
 //
 //	genconsts <repo> <spec.json> <out.v>
 //
+// `func` is "name" or "Recv.name" (method of Recv or *Recv).
 // spec.json: {"items":[{"name":"coq_name","file":"rel/path.go","kind":"const","ident":"goIdent"}, ...]}
 // kinds:
 //
@@ -11,7 +12,9 @@
 //	callarg  the `arg`-th argument of the `nth` call (in source order) to a function or method named
 //	         `ident` inside function `func` (optional); integer constant expression; emitted as Z
 //	string   value of a package-level const/var `ident` that is a string literal (or a call whose first
-//	         argument is one, e.g. regexp.MustCompile("...")); emitted as list N (bytes)
+//	         argument is one, e.g. regexp.MustCompile("...")); with `func` set: the string literal that is
+//	         argument `arg` of the `nth` call to `ident` inside function `func`; emitted as list N (bytes)
+//	strlit   the `nth` string literal (source order) inside function `func`; emitted as list N
 //	field    value of field `ident` in the composite literal returned by / assigned in function `func`
 //	         (first match in source order); integer constant expression; emitted as Z
 package main
@@ -204,12 +207,28 @@ func calleeName(c *ast.CallExpr) string {
 	return ""
 }
 
+// scope finds function `fn` in the file: "name" (first declaration of that name) or
+// "Recv.name" (method of receiver type Recv or *Recv). "" = the whole file.
 func scope(f *ast.File, fn string) ast.Node {
 	if fn == "" {
 		return f
 	}
 	for _, d := range f.Decls {
-		if fd, ok := d.(*ast.FuncDecl); ok && fd.Name.Name == fn {
+		fd, ok := d.(*ast.FuncDecl)
+		if !ok {
+			continue
+		}
+		name := fd.Name.Name
+		if fd.Recv != nil && len(fd.Recv.List) == 1 {
+			t := fd.Recv.List[0].Type
+			if st, ok := t.(*ast.StarExpr); ok {
+				t = st.X
+			}
+			if id, ok := t.(*ast.Ident); ok && fn == id.Name+"."+name {
+				return fd
+			}
+		}
+		if name == fn {
 			return fd
 		}
 	}
@@ -275,6 +294,46 @@ func main() {
 			}
 			fmt.Fprintf(&b, "(* %s: %s *)\nDefinition %s : Z := %s.\n", it.File, it.Ident, it.Name, zlit(n))
 		case "string":
+			if it.Func != "" {
+				// string literal argument of the nth call to `ident` inside function `func`
+				sc := scope(f, it.Func)
+				if sc == nil {
+					emitErr(fmt.Errorf("function %s not found", it.Func))
+					continue
+				}
+				k, done := 0, false
+				ast.Inspect(sc, func(n ast.Node) bool {
+					if done {
+						return false
+					}
+					if c, ok := n.(*ast.CallExpr); ok && calleeName(c) == it.Ident {
+						if k == it.Nth {
+							done = true
+							if it.Arg >= len(c.Args) {
+								emitErr(fmt.Errorf("call has %d args", len(c.Args)))
+								return false
+							}
+							s, ok := strLit(c.Args[it.Arg])
+							if !ok {
+								emitErr(fmt.Errorf("argument is not a string literal"))
+								return false
+							}
+							parts := make([]string, len(s))
+							for i := 0; i < len(s); i++ {
+								parts[i] = strconv.Itoa(int(s[i]))
+							}
+							fmt.Fprintf(&b, "(* %s: %s, call #%d of %s, argument %d = %q *)\nDefinition %s : list N := [%s]%%N.\n", it.File, it.Func, it.Nth, it.Ident, it.Arg, s, it.Name, strings.Join(parts, "; "))
+							return false
+						}
+						k++
+					}
+					return true
+				})
+				if !done {
+					emitErr(fmt.Errorf("call #%d of %s not found in %s", it.Nth, it.Ident, it.Func))
+				}
+				continue
+			}
 			c, ok := e.consts[it.Ident]
 			if !ok {
 				emitErr(fmt.Errorf("identifier not found"))
@@ -356,6 +415,40 @@ func main() {
 			})
 			if !done {
 				emitErr(fmt.Errorf("field not found"))
+			}
+		case "strlit":
+			// the nth string literal (source order) inside function `func`
+			sc := scope(f, it.Func)
+			if sc == nil {
+				emitErr(fmt.Errorf("function %s not found", it.Func))
+				continue
+			}
+			k, done := 0, false
+			ast.Inspect(sc, func(n ast.Node) bool {
+				if done {
+					return false
+				}
+				if bl, ok := n.(*ast.BasicLit); ok && bl.Kind == token.STRING {
+					if k == it.Nth {
+						done = true
+						s, err := strconv.Unquote(bl.Value)
+						if err != nil {
+							emitErr(err)
+							return false
+						}
+						parts := make([]string, len(s))
+						for i := 0; i < len(s); i++ {
+							parts[i] = strconv.Itoa(int(s[i]))
+						}
+						fmt.Fprintf(&b, "(* %s: %s, string literal #%d = %q *)\nDefinition %s : list N := [%s]%%N.\n", it.File, it.Func, it.Nth, s, it.Name, strings.Join(parts, "; "))
+						return false
+					}
+					k++
+				}
+				return true
+			})
+			if !done {
+				emitErr(fmt.Errorf("string literal #%d not found in %s", it.Nth, it.Func))
 			}
 		default:
 			emitErr(fmt.Errorf("unknown kind"))
